@@ -40,6 +40,8 @@ def profile_values(prof, thr):
 
 def run_detect(df, thr, m):
     from bycycle.burst import detect_bursts_cycles
+    if (len(df) + int(m)) % 2:
+        df['is_burst'] = True          # the table was labelled before (e.g. by an earlier, looser thresholding): must not matter
     kw = dict(zip([f + '_threshold' for f in FEATS], thr))
     out = detect_bursts_cycles(df, min_n_cycles=m, **kw)
     return [bool(x) for x in out['is_burst'].to_numpy()]
@@ -160,7 +162,8 @@ class WordRegions:
                             return VIOL({'kind': 'routing', 'word': w, 'centre': centre, 'threshold': f, 'value': repr(v)},
                                         'compute_features(%s_threshold=%r) labels != reference' % (f, v), expected=exp, observed=got, evals=nev)
             grids = {f: region_grid(feat[f]) for f in FEATS}
-            feats_only = df0.drop(columns=['is_burst'])
+            feats_only = df0.copy()
+            feats_only['is_burst'] = True      # re-thresholding an already labelled table: old labels must not survive
             moving_sets = [c for k in range(1, self.max_moving + 1) for c in itertools.combinations(FEATS, k)]
             for mv in moving_sets:
                 for m in (0, 1, 2, 3, 4):
